@@ -196,10 +196,25 @@ def run_history(algname, hist, probe, res, states):
     for step, (form, pattern, kind) in enumerate(hist):
         e0, c0 = probe.mark()
         err = None
-        try:
-            do_call(w, form, pattern, kind, salt=step)
-        except Exception as e:
-            err = type(e).__name__
+        if kind.endswith('@thread'):
+            # a strictly sequential history, but this call is made by another thread (started now, joined before the next call)
+            import threading
+            box = []
+
+            def runner():
+                try:
+                    do_call(w, form, pattern, kind.split('@')[0], salt=step)
+                except Exception as e:
+                    box.append(type(e).__name__)
+            t = threading.Thread(target=runner)
+            t.start()
+            t.join()
+            err = box[0] if box else None
+        else:
+            try:
+                do_call(w, form, pattern, kind, salt=step)
+            except Exception as e:
+                err = type(e).__name__
         e1, c1 = probe.mark()
         new_events = probe.events[e0:e1]
         st = cache_state(alg)
@@ -241,6 +256,9 @@ def histories(tier, algname):
         for t1 in TYPES:
             for t2 in TYPES:
                 out.append([(f, p, t1), (f, p, t2)])
+    for (f, p) in calls:
+        if f in DIRECT or f in ('pow3', 'norm'):
+            out.append([(f, p, 'int'), (f, p, 'float@thread'), (f, p, 'Fraction')])
     # a call with the same pattern whose values make the generated function raise at run time must not invalidate the cache
     for (f, p) in calls:
         if f in DIRECT:
